@@ -1562,7 +1562,7 @@ _ADAPT = [
 ]
 
 
-def expand_adaptors(body, depth=3):
+def expand_adaptors(body, depth=3, values=False):
     """New Body in which calls to the closure-taking Option / Result / bool adaptors (map, and_then, map_or, unwrap_or_else,
     ok_or_else, map_err, then) whose closure is a literal of this function, and `transpose`, are replaced by the match they
     stand for, with the closure's body spliced in.  `x.map(|n| f(n))` and `match x { Some(n) => Some(f(n)), None => None }`
@@ -1599,7 +1599,7 @@ def expand_adaptors(body, depth=3):
             arms = None
             kind = None
             clo_idx = None
-            if re.search(r"Option::<T>::unwrap_or$|Result::<T, E>::unwrap_or$", name) and (aty.startswith(OPT) or aty.startswith(RES)) and len(t["args"]) == 2:
+            if values and re.search(r"Option::<T>::unwrap_or$|Result::<T, E>::unwrap_or$", name) and (aty.startswith(OPT) or aty.startswith(RES)) and len(t["args"]) == 2:
                 # the payload when there is one, the given value otherwise
                 is_opt = aty.startswith(OPT)
                 dl = new_local("isize")
